@@ -236,7 +236,7 @@ func (g *gen) fileSkeleton(i int) {
 	}
 	// edition 2024 option imports: an unresolvable path, or a file of the set that is built before
 	// this one (a transitive, non-visible dependency)
-	if f.is2024() && g.chance(4, "option-import") {
+	if f.is2024() && g.chance(2, "option-import") {
 		var cands []string
 		var closure func(d *fileCtx)
 		cl := map[*fileCtx]bool{}
